@@ -116,44 +116,72 @@ def walk_ops(A, _seen=None):
                     yield from walk_ops(w, _seen)
 
 
-def scalar_invalidated_annotations(A):
+def scalar_invalidated_annotations(A, transparent_types=()):
     """Open finding F-C05-scalar: Product(ScalarMul c, X) inherits X's annotations whatever c is.
     Returns the set of annotation names that some node of A reports although its scalar factor
-    invalidates them (SelfAdjoint needs real c, PSD real c >= 0, Unitary/Stiefel |c| = 1)."""
+    invalidates them (SelfAdjoint needs real c, PSD real c >= 0, Unitary/Stiefel |c| = 1).
+    transparent_types: operator classes through which the routine under test recurses structurally without reading
+    annotations; a scalar multiple all of whose ancestors (and itself) are of these classes is not reported."""
     import cola
-    from cola.ops import Product, ScalarMul
+    from cola.ops import LinearOperator, Product, ScalarMul
     bad = set()
-    for op in walk_ops(A):
-        if not isinstance(op, Product):
-            continue
-        sc = [M for M in op.Ms if isinstance(M, ScalarMul)]
-        rest = [M for M in op.Ms if not isinstance(M, ScalarMul)]
-        if not sc or len(rest) != 1:
-            continue
-        c = complex(np.prod([complex(M.c) for M in sc]))
-        if op.isa(cola.SelfAdjoint) and c.imag != 0:
-            bad.add("SelfAdjoint")
-        if op.isa(cola.PSD) and not (c.imag == 0 and c.real >= 0):
-            bad.add("PSD")
-        if op.isa(cola.Stiefel) and abs(abs(c) - 1) > 1e-12:
-            bad.add("Unitary")
+    transparent_types = tuple(transparent_types)
+
+    def children(op):
+        for v in vars(op).values():
+            if isinstance(v, LinearOperator):
+                yield v
+            elif isinstance(v, (tuple, list)):
+                for w in v:
+                    if isinstance(w, LinearOperator):
+                        yield w
+
+    seen = set()
+
+    def visit(op, exposed):
+        if (id(op), exposed) in seen:
+            return
+        seen.add((id(op), exposed))
+        here = exposed or not (transparent_types and isinstance(op, transparent_types))
+        if isinstance(op, Product) and here:
+            sc = [M for M in op.Ms if isinstance(M, ScalarMul)]
+            rest = [M for M in op.Ms if not isinstance(M, ScalarMul)]
+            if sc and len(rest) == 1:
+                c = complex(np.prod([complex(M.c) for M in sc]))
+                if op.isa(cola.SelfAdjoint) and c.imag != 0:
+                    bad.add("SelfAdjoint")
+                if op.isa(cola.PSD) and not (c.imag == 0 and c.real >= 0):
+                    bad.add("PSD")
+                if op.isa(cola.Stiefel) and abs(abs(c) - 1) > 1e-12:
+                    bad.add("Unitary")
+        for ch in children(op):
+            visit(ch, here)
+
+    visit(A, False)
     return bad
 
 
-def contaminated_by_scalar(tree, names=("SelfAdjoint", )):
+def contaminated_by_scalar(tree, names=("SelfAdjoint", ), transparent=()):
     """True if some scalar-multiple subtree of the IR (scale / neg / div / a product with a ScalarMul leaf), built
     stand-alone, reports one of `names` although its scalar invalidates it (open finding F-C05-scalar). Checked on the
     IR rather than on the final operator because combinators flatten products and short-cuts such as X.H -> X of a
-    falsely SelfAdjoint X leave no trace in the built object."""
+    falsely SelfAdjoint X leave no trace in the built object.
+    transparent: IR kinds through which the routine under test recurses rule by rule without reading annotations; a
+    scalar multiple is ignored when it and all its ancestors are of these kinds (its false annotation is never read)."""
     from cvh import ir as IR
     names = set(names)
-    for node in IR.nodes(tree):
+    transparent = set(transparent)
+
+    def visit(node, exposed):
         k = node["k"]
-        if k in ("scale", "neg", "div", "rdiv") or (k == "prod" and any(c["k"] == "smul" for c in node.get("ch", []))) or k == "smul":
+        here = exposed or k not in transparent
+        if here and (k in ("scale", "neg", "div", "rdiv", "smul") or (k == "prod" and any(c["k"] == "smul" for c in node.get("ch", [])))):
             try:
                 sub = IR.build(node)
             except Exception:
-                continue
-            if hasattr(sub, "annotations") and scalar_invalidated_annotations(sub) & names:
+                sub = None
+            if sub is not None and hasattr(sub, "annotations") and scalar_invalidated_annotations(sub) & names:
                 return True
-    return False
+        return any(visit(c, here) for c in node.get("ch", []))
+
+    return visit(tree, False)
